@@ -268,7 +268,7 @@ template<class T> static void run_v(const char* label){
 	std::vector<T> L=latt<T>(); u64 n=vf::N(40000,4000000); auto& J=vjobs<T>();
 	static const u32 PV[6]={0x7fc00000u,0x7f800000u,0x00000000u,0x3f800000u,0xffffffffu,0x80000000u};
 	vf::parallel(label,[&](int t,int TT,vf::Ctx& c){ for(u64 i=t;i<n+L.size();i+=TT){ InV<T> x; for(int q=0;q<4;q++){ if(i<L.size()){ x.a[q]=L[(i+q)%L.size()]; x.b[q]=L[(i*7+q*3+1)%L.size()]; x.c[q]=L[(i*13+q*5+2)%L.size()]; } else { x.a[q]=gen<T>(c.rng,L); x.b[q]=gen<T>(c.rng,L); x.c[q]=gen<T>(c.rng,L); } }
-			if constexpr(std::is_floating_point<T>::value) for(int q=0;q<12;q++){ T& v=x.a[q]; if(isnan_b(v)) v=fp<T>::make(fp<T>::raw(v)|((typename fp<T>::U)1<<(fp<T>::MANT-1))); }
+			if constexpr(std::is_floating_point<T>::value){ T* arrs[3]={x.a,x.b,x.c}; for(T* arr: arrs) for(int q=0;q<4;q++){ T& v=arr[q]; if(isnan_b(v)) v=fp<T>::make(fp<T>::raw(v)|((typename fp<T>::U)1<<(fp<T>::MANT-1))); } }
 			x.mode=(u32)c.rng.next()&7; u32 pb=PV[c.rng.below(6)]; if constexpr(sizeof(T)==4) memcpy(&x.poison,&pb,4); else { u64 p64= pb==0x7fc00000u? 0x7ff8000000000000ULL: pb==0x7f800000u? 0x7ff0000000000000ULL: pb==0x3f800000u? 0x3ff0000000000000ULL: pb==0xffffffffu? ~0ULL: pb==0x80000000u? 0x8000000000000000ULL:0; memcpy(&x.poison,&p64,8); }
 			for(auto& j: J){ if(!vf::want(*j.op)) continue; InV<T> y=x; if(j.prep) j.prep(y); vf::run(c,*j.op,y); } } });
 }
